@@ -106,7 +106,17 @@ func (p *planner) plan() (shared.SQLRequestPlanner, error) {
 		ClickhouseRequestPlanner: p.samplesPlanner,
 		isMatrix:                 p.script.StrSelector == nil,
 	}*/
-	return p.samplesPlanner, nil
+	return p, nil
+}
+
+// Process executes the prepared plan once. The sub-selects the stages of one
+// statement share (fingerprints, labels) are cached in the planner while that
+// statement is built; they belong to this execution only: a later execution gets a
+// new context whose alias counter starts again, and must not meet them.
+func (p *planner) Process(ctx *shared.PlannerContext) (sql.ISelect, error) {
+	p.fpCache = nil
+	p.labelsCache = nil
+	return p.samplesPlanner.Process(ctx)
 }
 
 func (p *planner) planMetrics15Shortcut(script any) error {
